@@ -59,7 +59,7 @@ Definition orf_location (direction offset seq_len : Z) (record_length : option Z
   | Some n =>
     let ls := (loc_start + n) mod n in
     let le := ((loc_end - 1 + n) mod n) + 1 in
-    if le <? ls then
+    if le <=? ls then
       (if direction =? -1 then [mkPart 0 le direction; mkPart ls n direction]
        else [mkPart ls n direction; mkPart 0 le direction])
     else [mkPart ls le direction]
